@@ -959,7 +959,9 @@ class Explorer:
             states += 1
             if states > self.max_states:
                 raise AnalysisError("abstract exploration of %s exceeds %d states" % (self.func.qualname, self.max_states))
-            fk = (node.id, _freeze(env), events, only_label)
+            # (an exit is reached *through* a particular return / raise statement, which decides the outcome: two ways into
+            # it with equal valuations are still two outcomes)
+            fk = (node.id, _freeze(env), events, only_label, path[-1].id if (path and node in (g.exit, g.raise_exit, g.noreturn)) else None)
             if fk in seen:
                 continue
             seen.add(fk)
